@@ -328,7 +328,11 @@ pub fn builtin_function<NumericTypes: EvalexprNumericTypes>(
             if start > end || end > subject.len() {
                 return Err(EvalexprError::OutOfBoundsAccess);
             }
-            Ok(Value::from(&subject[start..end]))
+            // Indices inside a multi-byte character are out of bounds as well
+            subject
+                .get(start..end)
+                .map(Value::from)
+                .ok_or(EvalexprError::OutOfBoundsAccess)
         })),
         #[cfg(feature = "rand")]
         "random" => Some(Function::new(|argument| {
